@@ -20,8 +20,10 @@ CORPUS = [
         expect=[('C07.Z', 'CumSumTransform')]),
     Mut('c07-cumsum-inverse', TR, 'CumSumTransform._inverse', 'return torch.cat((y[..., :1], y[..., 1:] - y[..., :-1]), -1)', 'return torch.cat((y[..., :1], y[..., :-1] - y[..., 1:]), -1)',
         expect=[]),
-    Mut('c07-cumsumexp-inner', TR, 'CumSumExpTransform.log_abs_det_jacobian', 'def f(xx):\n    return xx.cumsum(-1).exp()', 'def f(xx):\n    return xx.exp()',
+    Mut('c07-cumsumexp-no-cumsum', TR, 'CumSumExpTransform.log_abs_det_jacobian', 'return x.cumsum(-1).sum(-1)', 'return x.sum(-1)',
         expect=[('C07.L', 'CumSumExpTransform')]),
+    Mut('c07-cumsumexp-autograd-other-chain', TR, 'CumSumExpTransform.log_abs_det_jacobian', 'return x.cumsum(-1).sum(-1)',
+        'def f(xx):\n    return xx.exp()\nreturn torch.diagonal(torch.autograd.functional.jacobian(f, x, create_graph=True), 0).log().sum()', expect=[('C07.L', 'CumSumExpTransform')]),
     Mut('c07-cumsumexp-inverse', TR, 'CumSumExpTransform._inverse', 'y_log = y.log()', 'y_log = y', expect=[('C07.I', 'CumSumExpTransform')]),
     Mut('c07-ratio-update', TH, 'GeneralNodeHeightTransform._call', 'heights[..., id_] = bounds[id_] + x[..., id_] * (heights[..., parent_id] - bounds[id_])',
         'heights[..., id_] = bounds[id_] + x[..., id_] * heights[..., parent_id]', expect=[('C07.G', 'update-form')]),
@@ -47,7 +49,7 @@ CORPUS = [
     # benign
     Mut('c07-benign-logsigmoid', TR, 'SoftPlusTransform.log_abs_det_jacobian', 'return -softplus(-x)', 'return torch.nn.functional.logsigmoid(x)', benign=True),
     Mut('c07-benign-log-form', TR, 'LogTransform.log_abs_det_jacobian', 'return -y', 'return -x.log()', benign=True),
-    Mut('c07-benign-cumsumexp-closed-form', TR, 'CumSumExpTransform', 'def log_abs_det_jacobian(self, x, y):…', 'def log_abs_det_jacobian(self, x, y):\n    return x.cumsum(-1).sum(-1)', benign=True),
+    Mut('c07-benign-cumsumexp-log-y', TR, 'CumSumExpTransform.log_abs_det_jacobian', 'return x.cumsum(-1).sum(-1)', 'return y.log().sum(-1)', benign=True),
 ]
 for m in CORPUS:
     if m.id == 'c07-cumsum-inverse':
